@@ -42,3 +42,6 @@ pub fn presolver_keep(data: &DefaultProblemData<f64>) -> Option<Vec<bool>> {
 pub fn presolver_dims(data: &DefaultProblemData<f64>) -> Option<(usize, usize, f64)> {
     data.presolver.as_ref().map(|p| (p.mfull, p.mreduced, p.infbound))
 }
+
+// per-thread event recorder for the solve loop (C04, C07, C20)
+pub mod trace;
